@@ -278,7 +278,22 @@ func (impl) Exec(op hx.Zs) []hx.Zs {
 		if len(op) != 3 {
 			return nil
 		}
-		a := model.NewAbsoluteOrRelativeTimeTypeFromTime(time.Unix(op[1], op[2]))
+		// the same instant in different locations (the SPINE text is always UTC): UTC, fixed offsets
+		// on both sides including the extreme ones, and the process-local zone; the model knows instants only
+		tm := time.Unix(op[1], op[2])
+		switch ((op[1] % 6) + 6) % 6 {
+		case 0:
+			tm = tm.UTC()
+		case 1:
+			tm = tm.In(time.FixedZone("east", 5*3600+1800))
+		case 2:
+			tm = tm.In(time.FixedZone("west", -8*3600))
+		case 3:
+			tm = tm.In(time.FixedZone("far-east", 14*3600))
+		case 4:
+			tm = tm.In(time.FixedZone("far-west", -12*3600))
+		}
+		a := model.NewAbsoluteOrRelativeTimeTypeFromTime(tm)
 		f, ok := dateTimeFields(string(*a))
 		if !ok {
 			return []hx.Zs{{97}}
